@@ -65,6 +65,11 @@ CHECKS["C03"] = dict(engine="wire", technique="stateful property-based testing w
    note="Rejected handshakes are treated as possibly re-arming the challenge (lenient). Session changes are observed through the guarded probe.",
    ref="7.0 / C03")
 
+CHECKS["C02"] = dict(engine="wire", technique="property-based fault injection (datagram mutation / splicing / redirection) with a ledger-inclusion oracle over delivered messages",
+   text="Exploration: generated honest exchanges in which any logged datagram is bit-flipped per region (raw and unmasked domain), truncated, extended, spliced, auth-data-swapped, re-IVed, given another handshake record, re-masked / redirected to another node or presented from another address; every surfaced Request/Response must stem from a byte-identical genuine datagram of an honest peer for exactly this node, from that peer's address, attributed to it, with content that peer's application handed over.",
+   note="AEAD forgery by chance treated as impossible; duplicates of genuine message datagrams may be delivered again (not forbidden by the statement).",
+   ref="7.0 / C02")
+
 NOT_YET = {}
 
 def main():
